@@ -514,6 +514,32 @@ class Gen:
             L.append("subs|%d|%s|%s" % (q, ss, pp))
             L.append("subscribers|%d|%s|%s" % (q, oss, pp))
 
+        if rnd.random() < P.get("replace_then_subscribe", 0.3):
+            # the ONLY registration that mentions a provided interface is replaced by another value (the interface stays
+            # mentioned exactly once); then subscribers for that interface arrive: each is listed once
+            r0 = rnd.randrange(nr)
+            ar0 = rnd.choice([0, 1, 1, 2])
+            req0 = [rnd.choice([None] + specs_all) for _ in range(ar0)]
+            p0 = rnd.choice(ifaces)
+            nm0 = rnd.choice(NAMES)
+            for _ in range(rnd.randint(2, 3)):
+                v = val()
+                line = "reg|%d|%s|%d|%s|%d %d" % (r0, sreq(req0), p0, nm0, v[0], v[1])
+                L.append(line)
+                flat.apply(line.split("|"))
+            live.append((tuple(req0), p0))
+            s0, pq = affected(req0, p0)
+            for _ in range(rnd.randint(1, 2)):
+                v = val()
+                rq = req0 if rnd.random() < 0.6 else [rnd.choice([None] + specs_all) for _ in range(rnd.choice([0, 1, 2]))]
+                line = "sub|%d|%s|%d|%d %d" % (r0, sreq(rq), p0, v[0], v[1])
+                L.append(line)
+                flat.apply(line.split("|"))
+                live.append((tuple(rq), p0))
+                s1, pq1 = affected(rq, p0)
+                for q in sorted(rdown(r0)):
+                    emit_queries(q, s1, pq1, nm0, pq1)
+            emit_queries(r0, s0, pq, nm0, pq)
         if rnd.random() < P.get("arity_hole", 0.3):
             # registrations at several arities in one registry; then the LAST registration (or subscription) of a lower
             # arity goes away: those of the higher arities stay where they are
